@@ -17,7 +17,7 @@ Ctxs(t, inh, ro) ==
   LET own == IF inh # "none" THEN inh                                   \* the outermost declaration wins
              ELSE CASE t.k = "unsafe" -> "unsafe"
                     [] t.k = "safe"   -> "safe"
-                    [] t.k = "obj" /\ "REG" \in t.caps /\ "NILP" \notin t.caps -> "safe"
+                    [] "REG" \in t.caps /\ "NILP" \notin t.caps -> "safe"                \* a registered type (any kind), at any depth
                     [] t.k = "obj" /\ "SV" \in t.caps /\ ~ro -> "safe"      \* O6: not seen behind an unexported field
                     [] t.k = "sstr" /\ ~ro -> "safe"
                     [] OTHER -> "none"
